@@ -334,6 +334,10 @@ def main(pid, argv=None):
                            cc.param("p1", dict(k="coded", dct=cc.std(cc.BUINT, 16), v=14281), 0),
                            cc.param("p2", dict(k="value", dop=cc.simple(cc.std(cc.BUINT, 8, 2, False)), dflt=None), 3, 6)],
                           False, None))
+            # corpus: the recorded finding 'prefix-shares-byte'
+            extra.append(([cc.param("p1", dict(k="coded", dct=cc.std(cc.BUINT, 16), v=32911), 0, 4),
+                           cc.param("p2", dict(k="value", dop=cc.simple(cc.std(cc.BUINT, 3)), dflt=None), 2)],
+                          False, None))
         cases = cr.build_cases(rng, n_desc, values_per_stream=vps, decode_budget=budget, want_static=(pid == "C08"),
                                extra_descs=extra, use_corpus=True)
     if pid in ("C04", "C01", "C02") and not ck.replay:
@@ -616,6 +620,21 @@ def known_tags(c, e, bad):
     pos = [p["bytepos"] for p in ps if p["bytepos"] is not None]
     if any(a > b for a, b in zip(pos, pos[1:])):
         tags.add("parameters-listed-out-of-wire-order")
+    # a parameter which is not constant is positioned into the last byte of the leading constants
+    end = 0
+    cursor = 0
+    for p in ps:
+        kd = p["kind"]
+        if kd["k"] not in ("coded", "physconst"):
+            if p["bytepos"] is not None and p["bytepos"] < end:
+                tags.add("value-shares-byte-with-constant-prefix")
+            break
+        start = p["bytepos"] if p["bytepos"] is not None else cursor
+        bl = kd["dct"]["bl"] if kd["k"] == "coded" and kd["dct"]["k"] == "std" else None
+        if bl is None:
+            break
+        cursor = start + ((p["bitpos"] or 0) + bl + 7) // 8
+        end = max(end, cursor)
     tags.add(bad.split(":")[0].split("(")[0].strip()[:60])
     for k in desc_features(c.params):
         tags.add(k)
